@@ -71,6 +71,13 @@ func CheckReverse(c Case) (edges int, reversible bool, err error) {
 		}
 		differ, planner = drv, drv
 	}
+	if c.Dialect == "postgres" && c.Flavour != "" {
+		drv, err := gm.OpenPostgres(c.Flavour)
+		if err != nil {
+			return 0, false, fmt.Errorf("harness: %v", err)
+		}
+		differ, planner = drv, drv
+	}
 	var changes []schema.Change
 	if c.Split {
 		changes, err = differ.RealmDiff(from, to)
@@ -129,6 +136,8 @@ func GenRandom(t *rapid.T) Case {
 		Multi: rapid.Bool().Draw(t, "multi"), Names: rapid.IntRange(0, 1).Draw(t, "names"), Split: rapid.IntRange(0, 2).Draw(t, "split") == 0}
 	if c.Dialect == "mysql" {
 		c.Flavour = rapid.SampledFrom([]string{"", "", "mysql8", "mysql57", "maria", "tidb"}).Draw(t, "flavour")
+	} else {
+		c.Flavour = rapid.SampledFrom([]string{"", "", "pg15", "crdb"}).Draw(t, "pgflavour")
 	}
 	for i := 0; i < n; i++ {
 		c.Role = append(c.Role, rapid.SampledFrom([]int{kept, kept, created, dropped}).Draw(t, "role"))
